@@ -120,6 +120,9 @@ PROPS = {
     "C08": {
         "modules": ["Resolved.Props.C08"],
         "streams": [{"name": "resolve-faults", "quick": 3000, "thorough": 80000},
+                    # local alias chains and circles (zones, cache) in all three modes: termination does not
+                    # depend on upstream behaving
+                    {"name": "resolve-local", "quick": 3000, "thorough": 120000},
                     # two zones whose (glueless) nameservers live in each other: k = 2..5 under the virtual clock
                     {"name": "resolve-mutual", "quick": 4, "thorough": 4, "shards": 1, "fixed": True},
                     # ... and k = 8 under the REAL clock (a CPU-bound search costs no virtual time): the resolution
